@@ -36,8 +36,17 @@ def run(ctx):
     r8(ctx)
     r9(ctx)
     r10(ctx)
+    ctx.rule('R09.11', 'the shard workers keep serving: no Merge / Lookup / Distances arm ends the worker thread')
+    ctx.floor('R09.11', S.rule_worker_keeps_serving(ctx, 'R09.11'), 3)
+    # a failed merge leaves the destination as it was (clause of C11, run here because C09 states "reports failure ...
+    # rather than success" and "changes only the destination")
+    from props import C11
+    ctx.rule('R09.12', 'Track::merge / add_observation restore attributes, observations, metric and history on every error exit')
+    C11.restore_rules(ctx, 'R09.12')
 
 
+SHORT_CIRCUIT = ('any', 'all', 'find', 'find_map', 'position', 'rposition', 'take_while', 'skip_while', 'map_while', 'take',
+                 'skip', 'step_by', 'nth', 'last', 'min_by_key', 'max_by_key')
 DROPPING = ('take', 'skip', 'take_while', 'skip_while', 'map_while', 'step_by', 'filter', 'rev', 'dedup', 'dedup_by_key',
             'unique', 'nth', 'last', 'first', 'get', 'split_at', 'split_first', 'split_last', 'chunks', 'windows',
             'truncate', 'retain', 'drain', 'sort', 'sort_unstable', 'pop', 'binary_search')
@@ -418,9 +427,8 @@ def r6(ctx):
     S.rule_merge_owned(ctx, 'R09.6')
 
 
-def r8(ctx):
-    R = 'R09.8'
-    ctx.rule(R, 'worker predicate senses: Lookup reports exactly lookup(q)==true; FindBaked drops exactly Pending')
+def r8(ctx, R='R09.8'):
+    ctx.rule(R, 'worker predicate senses: Lookup reports exactly lookup(q)==true; FindBaked drops exactly Pending') if R == 'R09.8' else None
     F = ctx.F
     w = ctx.anchor(R, S.WORKER)
     if w is None:
@@ -503,6 +511,25 @@ def r8(ctx):
             whole = whole or any(e.has_place(root=('param', 1), field='stores') for e in its)
         ctx.check(whole and not idx, R, b, name + ':whole-iteration', 'iterates self.stores whole',
                   '%s does not iterate all shards' % name)
+        # ... and EVERY shard is visited: the per-shard operation is not run by a short-circuiting / bounding adaptor
+        # (`any`, `all`, `find`, `position`, `take_while`, `take`, `skip` ...), which stops at the first shard that
+        # answers and leaves the remaining shards untouched
+        short = []
+        for site, c, o in sites:
+            if o is not b:
+                from lib import adaptor_of_closure
+                pb_, ac_ = adaptor_of_closure(F, b, o)
+                if ac_ is not None and ac_.name in SHORT_CIRCUIT:
+                    short.append(ac_.name)
+                if pb_ is not None and ac_ is not None:
+                    short += [y.name.rsplit('::', 1)[-1] for y in ExprBuilder(pb_).arg(ac_, 0).walk()
+                              if y.kind == 'call' and y.name.rsplit('::', 1)[-1] in SHORT_CIRCUIT]
+            for e_ in iteration_context(F, b, o, c.bb):
+                short += [y.name.rsplit('::', 1)[-1] for y in e_.walk() if y.kind == 'call' and
+                          y.name.rsplit('::', 1)[-1] in SHORT_CIRCUIT]
+        ctx.check(not short, R, b, name + ':every-shard-visited', '',
+                  '%s runs its per-shard operation under %s: the iteration over the shards stops early / skips shards, '
+                  'so some shards are never %s' % (name, sorted(set(short)), 'cleared' if name == 'clear' else 'counted'))
         if name == 'shard_stats':
             ok = len(sites) == 1
             if ok:
